@@ -79,3 +79,22 @@ Theorem network_id_reaches_protocol_strings : forall c,
         ["ant/node/"; "ant/client/"; "/ant/"; "ant/"] /\
   (c_netid c = None -> effective_netid c = 1%N) /\ (forall n, c_netid c = Some n -> effective_netid c = n).
 Proof. exact protocol_strings_lemma. Qed.
+
+(* whatever the service lived through between installation and upgrade (starts with any observed ports, stops,
+   registry refreshes): every flag but --port means at upgrade what it meant at installation, and program, user,
+   label, auto-restart and the EVM sub-command are the installed ones *)
+Theorem lifecycle_keeps_settings : forall c ls,
+  (forall f, f <> "--port" -> ilookup f (upgrade_main (after_life c ls)) = ilookup f (install_main c)) /\
+  (forall env o, let i := install_ctx c env in let u := upgrade_ctx (after_life c ls) o in
+     x_program u = x_program i /\ x_user u = x_user i /\ x_label u = x_label i /\ x_autostart u = x_autostart i /\
+     x_env u = u_env o) /\
+  evm_tokens (c_evm (after_life c ls)) = evm_tokens (c_evm c).
+Proof. exact lifecycle_lemma. Qed.
+
+(* antnode resolves the EVM network from the sub-command when there is one, and the manager always writes one:
+   whatever the service environment holds, the resolved network is the configured one *)
+Theorem evm_subcommand_wins : forall c env,
+  exists main, parse_cmd T SUBS (List.length (install_args c)) (install_args c) = Some (main, Some (evm_name (c_evm c), evm_items (c_evm c))) /\
+  resolve_evm (Some (evm_name (c_evm c), evm_items (c_evm c))) env = Some (c_evm c) /\
+  (exists main', parse_cmd T SUBS (List.length (upgrade_args c)) (upgrade_args c) = Some (main', Some (evm_name (c_evm c), evm_items (c_evm c)))).
+Proof. exact subcommand_wins_lemma. Qed.
